@@ -15,6 +15,7 @@ import (
 	kerrors "k8s.io/apimachinery/pkg/api/errors"
 	metav1 "k8s.io/apimachinery/pkg/apis/meta/v1"
 	"k8s.io/apimachinery/pkg/runtime"
+	"k8s.io/apimachinery/pkg/runtime/schema"
 	ktesting "k8s.io/client-go/testing"
 	"k8s.io/client-go/tools/record"
 
@@ -502,6 +503,8 @@ func faultErr(f string) error {
 		return kerrors.NewConflict(execution.Resource("jobs"), "x", fmt.Errorf("injected conflict"))
 	case "timeout":
 		return kerrors.NewServerTimeout(execution.Resource("jobs"), "update", 1)
+	case "invalid": // the API server refuses the object for good (non-retryable): Pod creates become an admission error of the Job
+		return kerrors.NewInvalid(schema.GroupKind{Kind: "Pod"}, "x", nil)
 	case "applied":
 		return sw.AppliedErr{Err: kerrors.NewTimeoutError("injected: request timed out after it was applied", 1)}
 	}
